@@ -830,3 +830,31 @@ Definition gcase_signature (c : gcase) : nat * nat * nat :=
   let ops := map go_op (gca_steps c) in
   let sf := fold_left (gstep closed_core_reacquires_tracker) ops g0 in
   (length (g_cores sf), length (filter gc_closed (g_cores sf)), length (g_kdel sf)).
+
+(* ------------------------------------------------------------------------------------------ *)
+(* long single-flow backlog (C13_Overflow): executed ids against the model's drain and the spec *)
+(* ------------------------------------------------------------------------------------------ *)
+From Dae Require Import C13_Overflow.
+
+(* observation: k tasks emitted behind the blocked first one; channel / overflow fill and overflow capacity
+   when the worker is released; the executed ids as (first, length) runs of consecutive ids *)
+Record bobs := mkBO { bo_k : nat; bo_chan : nat; bo_over : nat; bo_cap : nat; bo_runs : list (nat * nat); bo_idle : bool }.
+Definition run2 (a b : nat) : nat * nat := (a, b).
+
+Definition expand_runs (l : list (nat * nat)) : list nat := flat_map (fun r => seq (fst r) (snd r)) l.
+
+(* model: the held task, then the channel (ids 1..chan), then the overflow list drained by popOverflowTask *)
+Definition backlog_model (o : bobs) : list nat :=
+  seq 0 (S (bo_chan o))
+  ++ ov_drain (bo_over o) overflow_shrink_keeps udp_task_queue_length overflow_shrink_divisor
+       (seq (S (bo_chan o)) (bo_over o), bo_cap o).
+
+(* codes: 1 impl<>model; 2 impl<>spec (executed ids are not 0..k in order, with the worker idle);
+   3 model<>spec; 4 the worker never became idle (inconclusive observation) *)
+Definition bcheck_case (o : bobs) : list (nat * nat) :=
+  let ex := expand_runs (bo_runs o) in
+  let spec := seq 0 (S (bo_k o)) in
+  (if bo_idle o then [] else [(0, 4)])
+  ++ (if negb (bo_idle o) || list_eqb Nat.eqb ex (backlog_model o) then [] else [(length ex, 1)])
+  ++ (if negb (bo_idle o) || list_eqb Nat.eqb ex spec then [] else [(length ex, 2)])
+  ++ (if list_eqb Nat.eqb (backlog_model o) spec then [] else [(length (backlog_model o), 3)]).
